@@ -83,7 +83,7 @@ fn addr_pairs_ext() -> Vec<(AddrClass, AddrClass)> {
 fn plan(tier: Tier) -> Plan {
     let thorough = tier == Tier::Thorough;
     let mut udp = vec![];
-    let mut push_udp = |s_hw: HwKind, r_hw: HwKind, src: AddrClass, dst: AddrClass, pan: bool, mtu: usize, sp: u16, dp: u16, hl: u8| {
+    let mut push_udp = |s_hw: HwKind, r_hw: HwKind, src: AddrClass, dst: AddrClass, pan: bool, mtu: usize, sp: u16, dp: u16, hl: u8, every_len: bool| {
         let mut j = Scn::base("udp");
         j.s_hw = s_hw;
         j.r_hw = r_hw;
@@ -97,7 +97,7 @@ fn plan(tier: Tier) -> Plan {
         if !j.feasible() {
             return;
         }
-        let mut lens = if thorough { all_lens(48) } else { boundary_lens(&j) };
+        let mut lens = if thorough && every_len { all_lens(48) } else { boundary_lens(&j) };
         if !thorough && (sp, dp, hl) == (1234, 1234, 64) && pan && mtu == 1500 {
             // quick tier: the first four fragments exhaustively for every address pair
             let mut set: BTreeSet<usize> = lens.iter().copied().collect();
@@ -108,12 +108,23 @@ fn plan(tier: Tier) -> Plan {
         let pred = 125usize.checked_sub(mac + ch);
         udp.push((j, lens, pred));
     };
-    // A: extended hardware addresses on both sides: address classes x 4x4 ports x hop limits
+    // A: extended hardware addresses on both sides: address classes x port pairs x hop limits.
+    // The 4x4 port classes get every length in the thorough tier; the range-boundary ports
+    // (9x9 pairs) get the boundary lengths for every address pair, and every length for a few
+    // address pairs (the NHC port encoding does not depend on the addresses).
+    let every_len_pairs = [
+        (AddrClass::LlHw, AddrClass::LlHw),
+        (AddrClass::Global, AddrClass::Global),
+        (AddrClass::Ll16, AddrClass::Ll64),
+        (AddrClass::LlHw, AddrClass::McAllNodes),
+        (AddrClass::Ctx, AddrClass::McK(12)),
+    ];
     for (s, d) in addr_pairs_ext() {
-        for sp in PORTS {
-            for dp in PORTS {
+        for sp in PORTS_EDGE {
+            for dp in PORTS_EDGE {
+                let core = PORTS.contains(&sp) && PORTS.contains(&dp);
                 for hl in HOP_LIMITS {
-                    push_udp(HwKind::Ext, HwKind::Ext, s, d, true, 1500, sp, dp, hl);
+                    push_udp(HwKind::Ext, HwKind::Ext, s, d, true, 1500, sp, dp, hl, core || every_len_pairs.contains(&(s, d)));
                 }
             }
         }
@@ -124,7 +135,7 @@ fn plan(tier: Tier) -> Plan {
             for d in [AddrClass::LlHw, AddrClass::Global, AddrClass::McAllNodes] {
                 for (sp, dp) in [(1234u16, 1234u16), (0xf012, 0xf0b7)] {
                     for hl in [64u8, 7] {
-                        push_udp(HwKind::Ext, HwKind::Ext, s, d, pan, mtu, sp, dp, hl);
+                        push_udp(HwKind::Ext, HwKind::Ext, s, d, pan, mtu, sp, dp, hl, true);
                     }
                 }
             }
@@ -132,7 +143,7 @@ fn plan(tier: Tier) -> Plan {
     }
     // C: short hardware addresses (see Scn::feasible for what can be set up)
     let short_cfgs: [(HwKind, HwKind, &[AddrClass], &[AddrClass]); 3] = [
-        (HwKind::Short, HwKind::Ext, &[AddrClass::LlHw, AddrClass::Global], &[AddrClass::LlHw, AddrClass::McAllNodes, AddrClass::McSolicited, AddrClass::Mc32]),
+        (HwKind::Short, HwKind::Ext, &[AddrClass::LlHw, AddrClass::Global], &[AddrClass::LlHw, AddrClass::McAllNodes, AddrClass::McSolicited, AddrClass::Mc32, AddrClass::McK(12)]),
         (HwKind::Ext, HwKind::Short, &[AddrClass::LlHw, AddrClass::Ll16], &[AddrClass::McAllNodes, AddrClass::Mc8]),
         (HwKind::Short, HwKind::Short, &[AddrClass::LlHw], &[AddrClass::McAllNodes, AddrClass::McSolicited]),
     ];
@@ -142,7 +153,7 @@ fn plan(tier: Tier) -> Plan {
                 for sp in PORTS {
                     for dp in PORTS {
                         for hl in HOP_LIMITS {
-                            push_udp(sh, rh, *s, *d, true, 1500, sp, dp, hl);
+                            push_udp(sh, rh, *s, *d, true, 1500, sp, dp, hl, true);
                         }
                     }
                 }
@@ -297,7 +308,7 @@ fn plan(tier: Tier) -> Plan {
             (HwKind::Short, AddrClass::LlHw, AddrClass::McAllNodes),
         ]
     };
-    let perm_ports: Vec<(u16, u16)> = vec![(1234, 1234), (0xf012, 1234), (1234, 0xf0b7), (0xf0b7, 0xf0b1)];
+    let perm_ports: Vec<(u16, u16)> = vec![(1234, 1234), (0xf012, 1234), (1234, 0xf0b7), (0xf0b7, 0xf0b1), (0xf0bf, 0xf0b0)];
     let mut perm = vec![];
     for (sh, s, d) in &perm_pairs {
         for (sp, dp) in &perm_ports {
@@ -377,7 +388,8 @@ fn plan(tier: Tier) -> Plan {
             "jobs (address pair x port pair x hop limit x hw kinds x pan x mtu)": udp.len(),
             "source address classes": UNICAST_CLASSES.iter().map(|c| c.name()).collect::<Vec<_>>(),
             "destination address classes": UNICAST_CLASSES.iter().chain(MCAST_CLASSES.iter()).map(|c| c.name()).collect::<Vec<_>>(),
-            "ports (source x destination, 4x4)": PORTS.iter().map(|p| format!("{:#06x}", p)).collect::<Vec<_>>(),
+            "ports (source x destination, 9x9)": PORTS_EDGE.iter().map(|p| format!("{:#06x}", p)).collect::<Vec<_>>(),
+            "ports with every length in thorough (4x4; the other pairs: boundary lengths, plus every length for 5 address pairs)": PORTS.iter().map(|p| format!("{:#06x}", p)).collect::<Vec<_>>(),
             "hop limits": HOP_LIMITS,
             "hardware address kinds (S,R)": ["ext-ext", "short-ext", "ext-short", "short-short"],
             "lengths per job": if thorough { json!(format!("every length 0..={} plus 2 beyond the buffers", max_ipv6_len() - 48)) } else { json!("0,1,2, largest unfragmented +-2 (+-7..9), exact fill of fragments 1..4 +-2 (+-7..9), 1400, max in bounds, 2 beyond; for ports 1234x1234, hop limit 64 additionally every length 0..=420") },
@@ -557,6 +569,24 @@ fn finalize(sig: &str, scn: &Scn, _detail: &str) -> Result<(String, Scn, String)
         steps.push(dim(|t| {
             t.sport = 1234;
             t.dport = 1234;
+        }));
+        // same NHC port mode, canonical values (whole pair, then each port alone)
+        steps.push(dim(|t| {
+            let c = canonical_ports(t.sport, t.dport);
+            t.sport = c.0;
+            t.dport = c.1;
+        }));
+        steps.push(dim(|t| {
+            let c = canonical_ports(t.sport, t.dport);
+            if nhc_port_mode(c.0, t.dport) == nhc_port_mode(t.sport, t.dport) {
+                t.sport = c.0;
+            }
+        }));
+        steps.push(dim(|t| {
+            let c = canonical_ports(t.sport, t.dport);
+            if nhc_port_mode(t.sport, c.1) == nhc_port_mode(t.sport, t.dport) {
+                t.dport = c.1;
+            }
         }));
     }
     if scn.part == "seq" {
